@@ -274,6 +274,39 @@ func (a *App) Register(i int, g Reg) (err interface{}) {
 	return nil
 }
 
+// RegisterSplit is Register with the route text cut at the given byte offsets
+// (ascending): every piece but the last is the path of a nested Group, the
+// last one the path given to Route inside them. The concatenation is g.R.
+func (a *App) RegisterSplit(i int, g Reg, cuts []int) (err interface{}) {
+	defer func() {
+		if r := recover(); r != nil {
+			err = r
+		}
+	}()
+	var pieces []string
+	prev := 0
+	for _, c := range cuts {
+		if c < prev || c > len(g.R) {
+			panic("harness: cuts")
+		}
+		pieces = append(pieces, g.R[prev:c])
+		prev = c
+	}
+	rest := g.R[prev:]
+	var nest func(k int)
+	nest = func(k int) {
+		if k == len(pieces) {
+			if perr := a.Register(i, Reg{M: g.M, R: rest, H: g.H, HC: g.HC}); perr != nil {
+				panic(perr)
+			}
+			return
+		}
+		a.F.Group(pieces[k], func() { nest(k + 1) })
+	}
+	nest(0)
+	return nil
+}
+
 // RegisterRoutes is Register through Routes(path, list): g.M is a comma list.
 func (a *App) RegisterRoutes(i int, g Reg) (err interface{}) {
 	defer func() {
